@@ -7,8 +7,7 @@ import Parmcb.Props.C02
 Property theorems only.  Proved: rejection of `k = 0`; for `k = 1` nothing is dropped, so the algorithm
 is the exact algorithm run on (a re-ordering of) the whole graph and C02 applies; the per-edge bound
 `w(C_e) ≤ 2k · w(e)`; the spanner part is a minimum basis of the spanner (C02 on the spanner graph).
-NOT proved (`c06_bound_partial`): the global guarantee against every basis of `g`
-(Kavitha–Mehlhorn–Michail); it is checked per run against an independent optimum.
+The global guarantee against every basis of `g` (Kavitha–Mehlhorn–Michail) is `c06_bound` in Props/C06b.lean.
 -/
 namespace Parmcb.C06
 open Parmcb
